@@ -357,6 +357,8 @@ fn fld(j: &Value, k: &str) -> Option<String> {
 fn canon(v: &Value) -> Option<String> {
     match v {
         Value::Null => None,
+        // integers exactly (a `u64` time stamp above 2^53 is not an `f64`)
+        Value::Number(n) if n.is_u64() || n.is_i64() => Some(n.to_string()),
         Value::Number(n) => {
             let s = format!("{:.9}", n.as_f64().unwrap());
             let s = s.strip_suffix(".000000000").unwrap_or(&s).to_string();
@@ -983,8 +985,340 @@ fn process(out: &mut Out, jet: &mut Jet, scs: &[Scenario]) {
     }
 }
 
+// ------------------------------------------------------------------ all writers of the table (op `snapw`)
+
+/// one step of the live table: `update_snapshot` on a reception, `store_history` on it, one expiry pass
+#[derive(Clone)]
+enum Item {
+    Rec(String, String),  // (time text, frame hex)
+    Hist(String, String), // (time text, frame hex)
+    Exp(u64),             // wall-clock second `now`
+}
+
+/// A scenario of the hook's `snap` op that also contains `H…` / `X…` items (see verif_driver.rs): the
+/// table under `update_snapshot`, `store_history` and the expiry pass (`--history-expire minutes`).
+struct ScenarioW {
+    minutes: u64,
+    items: Vec<Item>,
+}
+impl ScenarioW {
+    fn line(&self) -> String {
+        let mut s = String::from("snap");
+        for it in &self.items {
+            match it {
+                Item::Rec(t, f) => s.push_str(&format!(" {t}:{f}")),
+                Item::Hist(t, f) => s.push_str(&format!(" H{t}:{f}")),
+                Item::Exp(now) => s.push_str(&format!(" X{now}:{}", self.minutes)),
+            }
+        }
+        s
+    }
+    fn sub(&self, keep: impl Fn(usize, &Item) -> bool) -> ScenarioW {
+        ScenarioW { minutes: self.minutes, items: self.items.iter().enumerate().filter(|(i, it)| keep(*i, it)).map(|(_, it)| it.clone()).collect() }
+    }
+}
+
+fn parse_line_w(line: &str) -> Option<ScenarioW> {
+    let mut w = line.split_whitespace();
+    if w.next()? != "snap" {
+        return None;
+    }
+    let mut sc = ScenarioW { minutes: 0, items: vec![] };
+    for tok in w {
+        if let Some(r) = tok.strip_prefix('X') {
+            let (now, m) = r.split_once(':')?;
+            sc.minutes = m.parse().ok()?;
+            sc.items.push(Item::Exp(now.parse().ok()?));
+        } else if let Some(r) = tok.strip_prefix('H') {
+            let (t, f) = r.split_once(':')?;
+            t.parse::<f64>().ok()?;
+            sc.items.push(Item::Hist(t.to_string(), f.to_string()));
+        } else {
+            let (t, f) = tok.split_once(':')?;
+            t.parse::<f64>().ok()?;
+            sc.items.push(Item::Rec(t.to_string(), f.to_string()));
+        }
+    }
+    Some(sc)
+}
+
+/// what the clauses say the entry of one address must be: first / last seen, count, and the indices of its
+/// `update_snapshot` items since its last removal
+#[derive(Clone, Default)]
+struct Expect {
+    first: u64,
+    last: u64,
+    count: u64,
+    own_since: Vec<usize>,
+}
+
+/// The clauses for the live table, on what the program shows (the `icao24` member of every item's JSON, the
+/// time stamps, the clock readings): an address has an entry iff it was touched since its last removal; an
+/// expiry pass removes exactly the entries with `now > lastseen + 60·minutes` (none when an evaluation
+/// overflows `u64`: the pass panics); count = its `update_snapshot` items since then; first seen = its first
+/// item since then; last seen = its latest `update_snapshot` since then (first seen if none); every value it
+/// holds is shown by one of those.  Returns, per address, the indices of its items, and whether a pass panicked.
+fn judge_w(out: &mut Out, sc: &ScenarioW, line: &str, ans: &Value) -> (BTreeMap<String, Vec<usize>>, bool) {
+    let mut own: BTreeMap<String, Vec<usize>> = BTreeMap::new();
+    let empty = vec![];
+    let records = ans.get("records").and_then(|r| r.as_array()).unwrap_or(&empty);
+    if records.len() != sc.items.len() {
+        out.fail("driver-answer", line, "item count mismatch");
+        return (own, false);
+    }
+    let mut exp: BTreeMap<String, Expect> = BTreeMap::new();
+    let mut panicked = false;
+    for (i, (it, r)) in sc.items.iter().zip(records).enumerate() {
+        match it {
+            Item::Rec(t, _) | Item::Hist(t, _) => {
+                let Some(a) = r["post"].get("icao24").and_then(|a| a.as_str()) else { continue };
+                own.entry(a.to_string()).or_default().push(i);
+                let ts = ts_of(t);
+                let is_rec = matches!(it, Item::Rec(..));
+                match exp.get_mut(a) {
+                    Some(e) if is_rec => {
+                        e.last = ts;
+                        e.count += 1;
+                        e.own_since.push(i);
+                    }
+                    Some(_) => {}
+                    None => {
+                        out.stat(if is_rec { "w:entry-created-by-update_snapshot" } else { "w:entry-created-by-store_history" });
+                        exp.insert(a.to_string(), Expect { first: ts, last: ts, count: is_rec as u64, own_since: if is_rec { vec![i] } else { vec![] } });
+                    }
+                }
+            }
+            Item::Exp(now) => {
+                // u64 with overflow checks, as the release profile of the workspace has them
+                let lims: Option<Vec<(String, u64)>> = exp
+                    .iter()
+                    .map(|(k, e)| sc.minutes.checked_mul(60).and_then(|d| e.last.checked_add(d)).map(|l| (k.clone(), l)))
+                    .collect();
+                let gone: Vec<String> = match &lims {
+                    Some(l) => l.iter().filter(|(_, lim)| *now > *lim).map(|(k, _)| k.clone()).collect(),
+                    None => vec![],
+                };
+                let shown: Vec<String> = r["removed"].as_array().unwrap_or(&empty).iter().filter_map(|k| k.as_str().map(String::from)).collect();
+                if r["panic"].as_bool() != Some(lims.is_none()) {
+                    out.fail("expiry-panic", line, &format!("item {i}: pass at {now} panicked={} but an overflow of lastseen + 60*{} is {}", r["panic"], sc.minutes, if lims.is_none() { "expected" } else { "impossible" }));
+                }
+                if shown != gone {
+                    out.fail("expiry-removal", line, &format!("item {i}: pass at {now} removed {shown:?}, the entries with now > lastseen + 60*{} are {gone:?}", sc.minutes));
+                }
+                out.stat(if lims.is_none() { "w:pass-panicked" } else if gone.is_empty() { "w:pass-removed-none" } else if gone.len() == exp.len() { "w:pass-removed-all" } else { "w:pass-removed-some" });
+                panicked |= lims.is_none();
+                for k in gone {
+                    exp.remove(&k);
+                }
+            }
+        }
+    }
+    let table = ans.get("table").and_then(|r| r.as_array()).unwrap_or(&empty);
+    let mut keys = BTreeSet::new();
+    for row in table {
+        let k = row[0].as_str().unwrap_or("?").to_string();
+        if !keys.insert(k.clone()) {
+            out.fail("duplicate-entry", line, &format!("two entries for {k}"));
+        }
+        if row[1]["icao24"].as_str() != Some(&k) {
+            out.fail("entry-under-wrong-key", line, &format!("entry {} filed under {k}", row[1]["icao24"]));
+        }
+    }
+    let want: BTreeSet<String> = exp.keys().cloned().collect();
+    if keys != want {
+        out.fail("keys-differ-from-addresses-since-removal", line, &format!("table keys {:?} vs addresses touched since their last removal {:?}", keys.difference(&want).collect::<Vec<_>>(), want.difference(&keys).collect::<Vec<_>>()));
+    }
+    for row in table {
+        let k = row[0].as_str().unwrap_or("?");
+        let cur = &row[1];
+        let Some(e) = exp.get(k) else { continue };
+        if cur["count"].as_u64() != Some(e.count) {
+            out.fail("count", line, &format!("{k}: count {} but {} update_snapshot items since its last removal", cur["count"], e.count));
+        }
+        if cur["firstseen"].as_u64() != Some(e.first) {
+            out.fail("firstseen", line, &format!("{k}: firstseen {} but its first item since its last removal is at {}", cur["firstseen"], e.first));
+        }
+        if cur["lastseen"].as_u64() != Some(e.last) {
+            out.fail("lastseen", line, &format!("{k}: lastseen {} but its latest update_snapshot since its last removal is at {}", cur["lastseen"], e.last));
+        }
+        let mut carried: Vec<(String, String)> = vec![];
+        let mut has_df18 = false;
+        for i in &e.own_since {
+            flatten(&records[*i]["post"], &mut carried);
+            has_df18 |= records[*i]["post"]["df"].as_str() == Some("18");
+        }
+        for (_, col) in TABLE_FIELDS {
+            let Some(v) = fld(cur, col) else { continue };
+            out.stat(&format!("w:held:{col}"));
+            let ok = if col == "typecode" { v == "GRND" && has_df18 } else { carried.iter().any(|(kk, vv)| shown_as(col).contains(&kk.as_str()) && *vv == v) };
+            if !ok {
+                out.fail("provenance", line, &format!("{k}: holds {col}={v}, which none of its {} update_snapshot items since its last removal shows", e.own_since.len()));
+            }
+        }
+    }
+    (own, panicked)
+}
+
+/// Histories of the three writers: 1–5 aircraft, `update_snapshot` items mostly followed by `store_history`
+/// on the same frame (as `main`'s loop does), lone `store_history` items (the pass fired in between),
+/// expiry passes at clock readings around the boundary `lastseen + 60·minutes` (exactly on it, one second
+/// past it, far past it, before it), time stamps forwards / backwards, three epochs, and expiry delays
+/// whose `minutes * 60` or `lastseen + minutes * 60` overflows `u64`.  One scenario in five has no pass.
+fn scenario_writers(rng: &mut Rng, thorough: bool) -> ScenarioW {
+    let minutes = match rng.below(12) {
+        0 => *rng.pick(&[307445734561825860u64, 307445734561825861, 307445734533492527]), // m*60 = 2^64-16 | overflows | 2^64 - 1.7e9 - …
+        1..=5 => 1,
+        6 | 7 => 2,
+        8 | 9 => 5,
+        _ => 10,
+    };
+    let n_ac = 1 + rng.below(5) as usize;
+    let mut acs: Vec<Ac> = vec![];
+    for _ in 0..n_ac {
+        let addr = if rng.chance(1, 6) && !acs.is_empty() { acs[acs.len() - 1].addr ^ (1 << rng.below(24)) } else { rng.below(1 << 24) as u32 };
+        if acs.iter().any(|a| a.addr == addr) {
+            continue;
+        }
+        acs.push(Ac { addr, lat: 40.0 + rng.f64(), lon: 5.0 + rng.f64(), odd: rng.chance(1, 2), alt12: ((rng.below(1600) / 16) << 5) | 0x10 | rng.below(16) });
+    }
+    let mut last: Vec<Option<u64>> = vec![None; acs.len()];
+    let mut t: f64 = *rng.pick(&[0.0, 1000.0, 1.7e9]) + rng.below(100) as f64;
+    let with_passes = !rng.chance(1, 5);
+    let lone_history = with_passes || rng.chance(1, 3);
+    let whole = rng.chance(2, 3);
+    let maxlen = if thorough && rng.chance(1, 6) { 120 } else { 40 };
+    let len = 3 + rng.below(maxlen) as usize;
+    let focus: Vec<&str> = (0..2 + rng.below(5)).map(|_| pick_kind(rng)).collect();
+    let mut items = vec![];
+    let delay = minutes.saturating_mul(60);
+    for _ in 0..len {
+        let text = |t: f64| if whole { format!("{}", t.floor()) } else { format!("{:.3}", t) };
+        match rng.below(100) {
+            0..=56 => {
+                let ai = rng.below(acs.len() as u64) as usize;
+                let kind = if rng.chance(2, 3) { *rng.pick(&focus) } else { pick_kind(rng) };
+                let f = hex(&frame(rng, &mut acs[ai], kind));
+                match rng.below(12) {
+                    0 => t -= rng.f64() * 30.0,
+                    1 => {}
+                    _ => t += rng.f64() * 20.0,
+                }
+                t = t.max(0.0);
+                items.push(Item::Rec(text(t), f.clone()));
+                last[ai] = Some(ts_of(&text(t)));
+                if rng.chance(7, 10) {
+                    items.push(Item::Hist(text(t), f));
+                }
+            }
+            57..=64 if lone_history => {
+                let ai = rng.below(acs.len() as u64) as usize;
+                let kind = pick_kind(rng);
+                let f = hex(&frame(rng, &mut acs[ai], kind));
+                items.push(Item::Hist(text(t), f));
+            }
+            65..=89 if with_passes => {
+                let around: Option<u64> = last[rng.below(acs.len() as u64) as usize];
+                let now = match (rng.below(4), around) {
+                    (0, Some(l)) => l.saturating_add(delay),                      // on the boundary: kept
+                    (1, Some(l)) => l.saturating_add(delay).saturating_add(1),    // one second past it: removed
+                    (2, _) => (t as u64).saturating_add(delay).saturating_add(rng.below(600)),
+                    _ => (t as u64) + *rng.pick(&[0u64, 30, 59, 60, 61, 119, 120, 121, 300, 601]),
+                };
+                items.push(Item::Exp(now));
+            }
+            _ => t += 50.0 + rng.f64() * 150.0,
+        }
+    }
+    ScenarioW { minutes, items }
+}
+
+/// run the scenarios through the real code (hook `snap` with `H` / `X` items), judge them, emit the
+/// correspondence case `snapw`, and re-run (c) the `update_snapshot` items alone when there is no pass,
+/// (b) every aircraft's own items with all the passes
+fn process_w(out: &mut Out, jet: &mut Jet, scs: &[ScenarioW]) {
+    let lines: Vec<String> = scs.iter().map(|s| s.line()).collect();
+    let answers = jet.batch(&lines);
+    // (what is compared, index of the full scenario, the sub-scenario)
+    let mut subs: Vec<(Option<String>, usize, ScenarioW)> = vec![];
+    let mut parsed: Vec<Option<Value>> = vec![];
+    for ((sc, line), ans) in scs.iter().zip(&lines).zip(&answers) {
+        let Ok(j) = serde_json::from_str::<Value>(ans) else {
+            out.fail("driver-answer", line, &format!("not JSON: {}", &ans[..ans.len().min(80)]));
+            parsed.push(None);
+            continue;
+        };
+        let (own, panicked) = judge_w(out, sc, line, &j);
+        if j["records"].as_array().map(|r| r.len()) != Some(sc.items.len()) {
+            parsed.push(None);
+            continue;
+        }
+        let toks: Vec<String> = sc
+            .items
+            .iter()
+            .zip(j["records"].as_array().unwrap())
+            .map(|(it, r)| match it {
+                Item::Rec(t, f) => rx_token(ts_of(t), f, &r["pre"]),
+                Item::Hist(t, f) => format!("H{}:{f}", ts_of(t)),
+                Item::Exp(now) => format!("X{now}"),
+            })
+            .collect();
+        out.case(&format!("snapw {} {}", sc.minutes, toks.join(" ")), &table_text(&j["table"], canon));
+        out.stat_n("w:items", sc.items.len() as u64);
+        let passes = sc.items.iter().filter(|it| matches!(it, Item::Exp(_))).count();
+        out.stat(if passes == 0 { "w:scenario-without-pass" } else { "w:scenario-with-passes" });
+        // (c) is claimed for the loop of main(): every store_history right after update_snapshot on the same message
+        let paired = sc.items.iter().enumerate().all(|(i, it)| match it {
+            Item::Hist(t, f) => i > 0 && matches!(&sc.items[i - 1], Item::Rec(t0, f0) if t0 == t && f0 == f),
+            _ => true,
+        });
+        if passes == 0 && paired {
+            subs.push((None, parsed.len(), sc.sub(|_, it| matches!(it, Item::Rec(..)))));
+        } else if passes == 0 {
+            out.stat("w:expiry-off-rerun-not-claimed-lone-store_history");
+        }
+        if panicked {
+            out.stat("w:noninterference-not-claimed-overflow");
+        } else if own.len() > 1 {
+            for (k, idx) in &own {
+                subs.push((Some(k.clone()), parsed.len(), sc.sub(|i, it| matches!(it, Item::Exp(_)) || idx.contains(&i))));
+            }
+        }
+        parsed.push(Some(j));
+    }
+    let sub_lines: Vec<String> = subs.iter().map(|(_, _, s)| s.line()).collect();
+    let sub_answers = jet.batch(&sub_lines);
+    for ((what, si, _), ans) in subs.iter().zip(&sub_answers) {
+        let Some(full) = &parsed[*si] else { continue };
+        let alone: Value = serde_json::from_str(ans).unwrap_or(Value::Null);
+        match what {
+            None => {
+                out.stat("w:expiry-off-rerun");
+                if full["table"] != alone["table"] {
+                    out.fail("store-history-changes-table", &lines[*si], &format!("no pass: table with the store_history items {} differs from the table of the update_snapshot items alone {}", full["table"], alone["table"]));
+                }
+            }
+            Some(k) => {
+                out.stat("w:noninterference-rerun");
+                let find = |j: &Value| j["table"].as_array().and_then(|t| t.iter().find(|row| row[0].as_str() == Some(k)).map(|row| row[1].clone()));
+                let (a, b) = (find(full), find(&alone));
+                if a != b {
+                    out.fail("interference", &lines[*si], &format!("{k}: entry with the other aircraft interleaved {} differs from its entry with its own items and the passes alone {}", a.unwrap_or(Value::Null), b.unwrap_or(Value::Null)));
+                }
+            }
+        }
+    }
+}
+
 pub fn one(out: &mut Out, line: &str) {
     let mut jet = Jet::new(&out.dir.clone());
+    // a line with `H…` / `X…` items is a scenario of the three writers
+    if line.split_whitespace().skip(1).any(|t| t.starts_with('H') || t.starts_with('X')) {
+        match parse_line_w(line) {
+            Some(sc) => process_w(out, &mut jet, &[sc]),
+            None => out.notes.push(format!("bad replay line (expected `snap <t>:<framehex> | H<t>:<framehex> | X<now>:<minutes> …`): {line}")),
+        }
+        return;
+    }
     match parse_line(line) {
         Some(sc) => process(out, &mut jet, &[sc]),
         None => out.notes.push(format!("bad replay line (expected `snap [@lat,lon] <t>:<framehex> …`): {line}")),
@@ -1018,6 +1352,15 @@ pub fn run(out: &mut Out, rng: &mut Rng, thorough: bool) {
         let n = (total - done).min(500);
         let scs: Vec<Scenario> = (0..n).map(|_| scenario_positions(rng, thorough)).collect();
         process(out, &mut jet, &scs);
+        done += n;
+    }
+    // all writers of the table: update_snapshot, store_history, expiry passes (op `snapw`)
+    let total = if thorough { 2500 } else { 500 };
+    let mut done = 0;
+    while done < total {
+        let n = (total - done).min(500);
+        let scs: Vec<ScenarioW> = (0..n).map(|_| scenario_writers(rng, thorough)).collect();
+        process_w(out, &mut jet, &scs);
         done += n;
     }
     out.notes.push(format!("driver scenarios executed by the real update_snapshot(): {}", jet.lines));
